@@ -1,19 +1,17 @@
 // C03 — printed log lines are never erased, duplicated or reordered (MultiProgress row accounting).
-// @file-encodes multi::MultiState::draw, multi::MultiState::println, multi::MultiState::clear, multi::MultiState::suspend, multi::MultiState::mark_zombie, multi::MultiState::remove_idx, multi::MultiState::draw_state, draw_target::DrawStateWrapper::drop, draw_target::ProgressDrawTarget::drawable, draw_target::ProgressDrawTarget::adjust_last_line_count, draw_target::Drawable::adjust_last_line_count, draw_target::Drawable::clear, draw_target::DrawState::draw_to_term, draw_target::RateLimiter::allow
-// @file-assumes one operation from an arbitrary state of Inv_multi (see multi/step.rs): 3 members of one 1-column row each, up to 2 kept zombie rows, previous frame of up to 3 rows, limiter admitting or refusing; W=4, H=10 (no height overflow: C19's subject); member BarStates are replaced by the exact draw-target call sequences of BarState::{draw,println,drop}; abstract screen model; Instant::now frozen
+// @file-encodes multi::MultiState::draw, multi::MultiState::println, multi::MultiState::clear, multi::MultiState::suspend, multi::MultiState::mark_zombie, multi::MultiState::remove_idx, multi::MultiState::draw_state, draw_target::DrawStateWrapper::drop, draw_target::ProgressDrawTarget::drawable, draw_target::ProgressDrawTarget::adjust_last_line_count, draw_target::Drawable::adjust_last_line_count, draw_target::Drawable::state, draw_target::Drawable::clear, draw_target::Drawable::draw
+// @file-assumes one operation from an arbitrary state of Inv_multi (see multi/step.rs): 2 drawn members of one row each with a concrete zombie pattern, 0..=2 kept zombie rows, previous frame of 0..=2 rows, limiter admitting or refusing (symbolic); DrawState::draw_to_term is replaced by its contract on a row stack (erase exactly last_line_count rows from the bottom, paint text lines then bar lines, last_line_count = bar rows) which the C01/C19 step harnesses establish on the detailed screen model for frames that fit and top alignment; member BarStates are replaced by the exact draw-target call sequences of BarState::{draw,println,drop}; RateLimiter::allow = harness-controlled verdict; visual_line_count = number of lines (one-row lines); MultiState::remove_idx replaced by a recorder (its slot/ordering bookkeeping is decided by c02_remove_step)
 #[cfg(kani)]
 mod verif_c03 {
     use super::verif_mstep::*;
     use super::verif_rig_multi::*;
     use super::*;
-    use crate::draw_target::verif_scr::*;
+    use crate::draw_target::verif_rig_dt::*;
     use crate::verif_common::*;
-    use crate::TermLike;
 
-    /// op: 0 member draw (ordinary), 1 member println, 2 mp.println, 3 mp.clear, 4 drop member, 5 suspend
-    fn op_step(op: u8, zmask: u8, dmask: u8, live: usize) -> u32 {
-        let mut p = pre_state(4, zmask, dmask);
-        let scr = p.scr;
+    /// op: 0 member draw (ordinary), 1 member println, 2 mp.println, 3 mp.clear, 4 drop member, 5 suspend, 6 remove
+    fn op_step(op: u8, zmask: u8, live: usize) -> u32 {
+        let mut p = pre_state(zmask);
         let now = p.now;
         match op {
             0 => {
@@ -22,7 +20,8 @@ mod verif_c03 {
                 post_inv(&p, 0);
                 if !p.allow {
                     // a skipped draw changes nothing on screen and nothing in the row accounting
-                    assert!(last_count(&p.ms) == p.f && zombie_lines(&p.ms) == p.z0);
+                    assert!(unsafe { DRAWS } == 0);
+                    assert!(target_last_rows(&p.ms.draw_target) == p.f && p.ms.zombie_lines_count.as_usize() == p.z0);
                 }
             }
             1 => {
@@ -31,23 +30,23 @@ mod verif_c03 {
                 post_inv(&p, b'x');
             }
             2 => {
-                let r = p.ms.println("x", now);
+                // MultiState::println(msg) = split msg into Text lines, then draw(true, Some(lines), now); the split (a String
+                // allocation of symbolic size per line, which CBMC cannot digest) is exercised by the composition harnesses
+                let mut lines: Vec<LineType> = Vec::with_capacity(1);
+                lines.push(LineType::Text(String::from("x")));
+                let r = p.ms.draw(true, Some(lines), now);
                 assert!(r.is_ok());
                 post_inv(&p, b'x');
                 // the new line is the first row below the old log
-                assert!(scr.tag(L) == b'x');
-                assert!(zombie_lines(&p.ms) == 0);
+                assert!(unsafe { STACK[L] } == b'x');
+                assert!(p.ms.zombie_lines_count.as_usize() == 0);
             }
             3 => {
                 let r = p.ms.clear(now);
                 assert!(r.is_ok());
                 post_inv(&p, 0);
-                let mut r = L;
-                while r < NROWS {
-                    assert!(scr.is_blank(r));
-                    r += 1;
-                }
-                assert!(last_count(&p.ms) == 0 && zombie_lines(&p.ms) == 0);
+                assert!(unsafe { SLEN } == L); // everything below the log is erased, nothing of the log
+                assert!(target_last_rows(&p.ms.draw_target) == 0 && p.ms.zombie_lines_count.as_usize() == 0);
             }
             4 => {
                 let r = member_draw(&mut p.ms, live, b'D', true, now);
@@ -55,17 +54,21 @@ mod verif_c03 {
                 p.ms.mark_zombie(live);
                 post_inv(&p, 0);
             }
-            _ => {
+            5 => {
                 let v = p.ms.suspend(
                     || {
-                        let _ = scr.write_line("y");
+                        stack_push(b'y');
                         3
                     },
                     now,
                 );
                 assert!(v == 3);
                 post_inv(&p, b'y');
-                assert!(scr.tag(L) == b'y');
+                assert!(unsafe { STACK[L] } == b'y');
+            }
+            _ => {
+                p.ms.remove_idx(live);
+                post_inv(&p, 0);
             }
         }
         let mut code = 0u32;
@@ -75,7 +78,7 @@ mod verif_c03 {
         if p.z0 > 0 {
             code |= 2;
         }
-        if p.f == 3 {
+        if p.f == 2 {
             code |= 4;
         }
         if p.f == 0 && p.z0 == 0 {
@@ -85,268 +88,235 @@ mod verif_c03 {
         code
     }
 
-    // @harness id=C03 tier=quick timeout=3000 mem=8
-    // @bounds one ordinary (rate-limitable) redraw of a live member, from any Inv_multi state with zombie pattern 000 (members 0..2, bit i = member i is a dropped bar still in the order), all three members drawn; live member acted on: 2
+    // @harness id=C03 tier=thorough timeout=3400 mem=16 checks=rust
+    // @bounds one ordinary (rate-limitable) redraw of a live member, from any Inv_multi state with zombie pattern 00 (bit i = member i is a dropped bar still in the order); live member acted on: 1
     #[kani::proof]
-    #[kani::unwind(14)]
-    //@STUBS std now widthascii repeat noterm rlctl noweight
+    #[kani::unwind(6)]
+    //@STUBS std now widthascii noterm rlctl noweight dttcontract rows1 noremove lineclone norwlock
     fn c03_member_draw_live() {
-        let c = op_step(0, 0, 7, 2);
+        let c = op_step(0, 0, 1);
         kani::cover!(c & 1 != 0 && c & 2 != 0);
         kani::cover!(c & 1 == 0);
     }
 
-    // @harness id=C03 tier=quick timeout=3000 mem=8
-    // @bounds one ordinary (rate-limitable) redraw of a live member, from any Inv_multi state with zombie pattern 001 (members 0..2, bit i = member i is a dropped bar still in the order), all three members drawn; live member acted on: 2
+    // @harness id=C03 tier=thorough timeout=3400 mem=16 checks=rust
+    // @bounds one ordinary (rate-limitable) redraw of a live member, from any Inv_multi state with zombie pattern 01 (bit i = member i is a dropped bar still in the order); live member acted on: 1
     #[kani::proof]
-    #[kani::unwind(14)]
-    //@STUBS std now widthascii repeat noterm rlctl noweight
+    #[kani::unwind(6)]
+    //@STUBS std now widthascii noterm rlctl noweight dttcontract rows1 noremove lineclone norwlock
     fn c03_member_draw_headz() {
-        let c = op_step(0, 1, 7, 2);
+        let c = op_step(0, 1, 1);
         kani::cover!(c & 1 != 0 && c & 2 != 0);
         kani::cover!(c & 1 == 0);
     }
 
-    // @harness id=C03 tier=quick timeout=3000 mem=8
-    // @bounds one ordinary (rate-limitable) redraw of a live member, from any Inv_multi state with zombie pattern 010 (members 0..2, bit i = member i is a dropped bar still in the order), all three members drawn; live member acted on: 2
+    // @harness id=C03 tier=thorough timeout=3400 mem=16 checks=rust
+    // @bounds one ordinary (rate-limitable) redraw of a live member, from any Inv_multi state with zombie pattern 10 (bit i = member i is a dropped bar still in the order); live member acted on: 0
     #[kani::proof]
-    #[kani::unwind(14)]
-    //@STUBS std now widthascii repeat noterm rlctl noweight
-    fn c03_member_draw_midz() {
-        let c = op_step(0, 2, 7, 2);
+    #[kani::unwind(6)]
+    //@STUBS std now widthascii noterm rlctl noweight dttcontract rows1 noremove lineclone norwlock
+    fn c03_member_draw_tailz() {
+        let c = op_step(0, 2, 0);
         kani::cover!(c & 1 != 0 && c & 2 != 0);
         kani::cover!(c & 1 == 0);
     }
 
-    // @harness id=C03 tier=thorough timeout=3000 mem=8
-    // @bounds one ordinary (rate-limitable) redraw of a live member, from any Inv_multi state with zombie pattern 011 (members 0..2, bit i = member i is a dropped bar still in the order), all three members drawn; live member acted on: 2
+    // @harness id=C03 tier=thorough timeout=3400 mem=16 checks=rust
+    // @bounds ProgressBar::println on a live member (text line + bar line, forced), from any Inv_multi state with zombie pattern 00 (bit i = member i is a dropped bar still in the order); live member acted on: 1
     #[kani::proof]
-    #[kani::unwind(14)]
-    //@STUBS std now widthascii repeat noterm rlctl noweight
-    fn c03_member_draw_headzz() {
-        let c = op_step(0, 3, 7, 2);
-        kani::cover!(c & 1 != 0 && c & 2 != 0);
-        kani::cover!(c & 1 == 0);
-    }
-
-    // @harness id=C03 tier=quick timeout=3000 mem=8
-    // @bounds ProgressBar::println on a live member (text line + bar line, forced), from any Inv_multi state with zombie pattern 000 (members 0..2, bit i = member i is a dropped bar still in the order), all three members drawn; live member acted on: 2
-    #[kani::proof]
-    #[kani::unwind(14)]
-    //@STUBS std now widthascii repeat noterm rlctl noweight
+    #[kani::unwind(6)]
+    //@STUBS std now widthascii noterm rlctl noweight dttcontract rows1 noremove lineclone norwlock
     fn c03_member_println_live() {
-        let c = op_step(1, 0, 7, 2);
+        let c = op_step(1, 0, 1);
         kani::cover!(c & 2 != 0);
         kani::cover!(c & 8 != 0);
     }
 
-    // @harness id=C03 tier=quick timeout=3000 mem=8
-    // @bounds ProgressBar::println on a live member (text line + bar line, forced), from any Inv_multi state with zombie pattern 001 (members 0..2, bit i = member i is a dropped bar still in the order), all three members drawn; live member acted on: 2
+    // @harness id=C03 tier=thorough timeout=3400 mem=16 checks=rust
+    // @bounds ProgressBar::println on a live member (text line + bar line, forced), from any Inv_multi state with zombie pattern 01 (bit i = member i is a dropped bar still in the order); live member acted on: 1
     #[kani::proof]
-    #[kani::unwind(14)]
-    //@STUBS std now widthascii repeat noterm rlctl noweight
+    #[kani::unwind(6)]
+    //@STUBS std now widthascii noterm rlctl noweight dttcontract rows1 noremove lineclone norwlock
     fn c03_member_println_headz() {
-        let c = op_step(1, 1, 7, 2);
+        let c = op_step(1, 1, 1);
         kani::cover!(c & 2 != 0);
-        kani::cover!(c & 8 != 0);
+        kani::cover!(c & 4 != 0);
     }
 
-    // @harness id=C03 tier=thorough timeout=3000 mem=8
-    // @bounds ProgressBar::println on a live member (text line + bar line, forced), from any Inv_multi state with zombie pattern 010 (members 0..2, bit i = member i is a dropped bar still in the order), all three members drawn; live member acted on: 2
+    // @harness id=C03 tier=thorough timeout=3400 mem=16 checks=rust
+    // @bounds ProgressBar::println on a live member (text line + bar line, forced), from any Inv_multi state with zombie pattern 10 (bit i = member i is a dropped bar still in the order); live member acted on: 0
     #[kani::proof]
-    #[kani::unwind(14)]
-    //@STUBS std now widthascii repeat noterm rlctl noweight
-    fn c03_member_println_midz() {
-        let c = op_step(1, 2, 7, 2);
+    #[kani::unwind(6)]
+    //@STUBS std now widthascii noterm rlctl noweight dttcontract rows1 noremove lineclone norwlock
+    fn c03_member_println_tailz() {
+        let c = op_step(1, 2, 0);
         kani::cover!(c & 2 != 0);
-        kani::cover!(c & 8 != 0);
+        kani::cover!(c & 4 != 0);
     }
 
-    // @harness id=C03 tier=thorough timeout=3000 mem=8
-    // @bounds ProgressBar::println on a live member (text line + bar line, forced), from any Inv_multi state with zombie pattern 011 (members 0..2, bit i = member i is a dropped bar still in the order), all three members drawn; live member acted on: 2
+    // @harness id=C03 tier=thorough timeout=3400 mem=16 checks=rust
+    // @bounds MultiProgress::println, from any Inv_multi state with zombie pattern 00 (bit i = member i is a dropped bar still in the order); live member acted on: 1
     #[kani::proof]
-    #[kani::unwind(14)]
-    //@STUBS std now widthascii repeat noterm rlctl noweight
-    fn c03_member_println_headzz() {
-        let c = op_step(1, 3, 7, 2);
-        kani::cover!(c & 2 != 0);
-        kani::cover!(c & 8 != 0);
-    }
-
-    // @harness id=C03 tier=quick timeout=3000 mem=8
-    // @bounds MultiProgress::println, from any Inv_multi state with zombie pattern 000 (members 0..2, bit i = member i is a dropped bar still in the order), all three members drawn; live member acted on: 2
-    #[kani::proof]
-    #[kani::unwind(14)]
-    //@STUBS std now widthascii repeat noterm rlctl noweight
+    #[kani::unwind(6)]
+    //@STUBS std now widthascii noterm rlctl noweight dttcontract rows1 noremove lineclone norwlock
     fn c03_mp_println_live() {
-        let c = op_step(2, 0, 7, 2);
+        let c = op_step(2, 0, 1);
         kani::cover!(c & 2 != 0);
         kani::cover!(c & 8 != 0);
     }
 
-    // @harness id=C03 tier=quick timeout=3000 mem=8
-    // @bounds MultiProgress::println, from any Inv_multi state with zombie pattern 001 (members 0..2, bit i = member i is a dropped bar still in the order), all three members drawn; live member acted on: 2
+    // @harness id=C03 tier=thorough timeout=3400 mem=16 checks=rust
+    // @bounds MultiProgress::println, from any Inv_multi state with zombie pattern 01 (bit i = member i is a dropped bar still in the order); live member acted on: 1
     #[kani::proof]
-    #[kani::unwind(14)]
-    //@STUBS std now widthascii repeat noterm rlctl noweight
+    #[kani::unwind(6)]
+    //@STUBS std now widthascii noterm rlctl noweight dttcontract rows1 noremove lineclone norwlock
     fn c03_mp_println_headz() {
-        let c = op_step(2, 1, 7, 2);
+        let c = op_step(2, 1, 1);
         kani::cover!(c & 2 != 0);
-        kani::cover!(c & 8 != 0);
+        kani::cover!(c & 4 != 0);
     }
 
-    // @harness id=C03 tier=quick timeout=3000 mem=8
-    // @bounds MultiProgress::println, from any Inv_multi state with zombie pattern 010 (members 0..2, bit i = member i is a dropped bar still in the order), all three members drawn; live member acted on: 2
+    // @harness id=C03 tier=thorough timeout=3400 mem=16 checks=rust
+    // @bounds MultiProgress::println, from any Inv_multi state with zombie pattern 10 (bit i = member i is a dropped bar still in the order); live member acted on: 0
     #[kani::proof]
-    #[kani::unwind(14)]
-    //@STUBS std now widthascii repeat noterm rlctl noweight
-    fn c03_mp_println_midz() {
-        let c = op_step(2, 2, 7, 2);
+    #[kani::unwind(6)]
+    //@STUBS std now widthascii noterm rlctl noweight dttcontract rows1 noremove lineclone norwlock
+    fn c03_mp_println_tailz() {
+        let c = op_step(2, 2, 0);
         kani::cover!(c & 2 != 0);
-        kani::cover!(c & 8 != 0);
+        kani::cover!(c & 4 != 0);
     }
 
-    // @harness id=C03 tier=thorough timeout=3000 mem=8
-    // @bounds MultiProgress::println, from any Inv_multi state with zombie pattern 011 (members 0..2, bit i = member i is a dropped bar still in the order), all three members drawn; live member acted on: 2
+    // @harness id=C03 tier=thorough timeout=3400 mem=16 checks=rust
+    // @bounds MultiProgress::println, from any Inv_multi state with zombie pattern 11 (bit i = member i is a dropped bar still in the order)
     #[kani::proof]
-    #[kani::unwind(14)]
-    //@STUBS std now widthascii repeat noterm rlctl noweight
-    fn c03_mp_println_headzz() {
-        let c = op_step(2, 3, 7, 2);
+    #[kani::unwind(6)]
+    //@STUBS std now widthascii noterm rlctl noweight dttcontract rows1 noremove lineclone norwlock
+    fn c03_mp_println_allz() {
+        let c = op_step(2, 3, 0);
         kani::cover!(c & 2 != 0);
-        kani::cover!(c & 8 != 0);
+        kani::cover!(c & 4 != 0);
     }
 
-    // @harness id=C03 tier=quick timeout=3000 mem=8
-    // @bounds MultiProgress::clear, from any Inv_multi state with zombie pattern 000 (members 0..2, bit i = member i is a dropped bar still in the order), all three members drawn; live member acted on: 2
+    // @harness id=C03 tier=thorough timeout=3400 mem=16 checks=rust
+    // @bounds MultiProgress::clear, from any Inv_multi state with zombie pattern 00 (bit i = member i is a dropped bar still in the order); live member acted on: 1
     #[kani::proof]
-    #[kani::unwind(14)]
-    //@STUBS std now widthascii repeat noterm rlctl noweight
+    #[kani::unwind(6)]
+    //@STUBS std now widthascii noterm rlctl noweight dttcontract rows1 noremove lineclone norwlock
     fn c03_mp_clear_live() {
-        let c = op_step(3, 0, 7, 2);
+        let c = op_step(3, 0, 1);
         kani::cover!(c & 2 != 0);
         kani::cover!(c & 8 != 0);
     }
 
-    // @harness id=C03 tier=quick timeout=3000 mem=8
-    // @bounds MultiProgress::clear, from any Inv_multi state with zombie pattern 001 (members 0..2, bit i = member i is a dropped bar still in the order), all three members drawn; live member acted on: 2
+    // @harness id=C03 tier=thorough timeout=3400 mem=16 checks=rust
+    // @bounds MultiProgress::clear, from any Inv_multi state with zombie pattern 01 (bit i = member i is a dropped bar still in the order); live member acted on: 1
     #[kani::proof]
-    #[kani::unwind(14)]
-    //@STUBS std now widthascii repeat noterm rlctl noweight
+    #[kani::unwind(6)]
+    //@STUBS std now widthascii noterm rlctl noweight dttcontract rows1 noremove lineclone norwlock
     fn c03_mp_clear_headz() {
-        let c = op_step(3, 1, 7, 2);
+        let c = op_step(3, 1, 1);
         kani::cover!(c & 2 != 0);
-        kani::cover!(c & 8 != 0);
+        kani::cover!(c & 4 != 0);
     }
 
-    // @harness id=C03 tier=thorough timeout=3000 mem=8
-    // @bounds MultiProgress::clear, from any Inv_multi state with zombie pattern 010 (members 0..2, bit i = member i is a dropped bar still in the order), all three members drawn; live member acted on: 2
+    // @harness id=C03 tier=thorough timeout=3400 mem=16 checks=rust
+    // @bounds MultiProgress::clear, from any Inv_multi state with zombie pattern 10 (bit i = member i is a dropped bar still in the order); live member acted on: 0
     #[kani::proof]
-    #[kani::unwind(14)]
-    //@STUBS std now widthascii repeat noterm rlctl noweight
-    fn c03_mp_clear_midz() {
-        let c = op_step(3, 2, 7, 2);
+    #[kani::unwind(6)]
+    //@STUBS std now widthascii noterm rlctl noweight dttcontract rows1 noremove lineclone norwlock
+    fn c03_mp_clear_tailz() {
+        let c = op_step(3, 2, 0);
         kani::cover!(c & 2 != 0);
-        kani::cover!(c & 8 != 0);
+        kani::cover!(c & 4 != 0);
     }
 
-    // @harness id=C03 tier=thorough timeout=3000 mem=8
-    // @bounds MultiProgress::clear, from any Inv_multi state with zombie pattern 011 (members 0..2, bit i = member i is a dropped bar still in the order), all three members drawn; live member acted on: 2
+    // @harness id=C03 tier=thorough timeout=3400 mem=16 checks=rust
+    // @bounds MultiProgress::clear, from any Inv_multi state with zombie pattern 11 (bit i = member i is a dropped bar still in the order)
     #[kani::proof]
-    #[kani::unwind(14)]
-    //@STUBS std now widthascii repeat noterm rlctl noweight
-    fn c03_mp_clear_headzz() {
-        let c = op_step(3, 3, 7, 2);
+    #[kani::unwind(6)]
+    //@STUBS std now widthascii noterm rlctl noweight dttcontract rows1 noremove lineclone norwlock
+    fn c03_mp_clear_allz() {
+        let c = op_step(3, 3, 0);
         kani::cover!(c & 2 != 0);
-        kani::cover!(c & 8 != 0);
+        kani::cover!(c & 4 != 0);
     }
 
-    // @harness id=C03 tier=quick timeout=3000 mem=8
-    // @bounds a live member is dropped (forced final draw, then mark_zombie), from any Inv_multi state with zombie pattern 000 (members 0..2, bit i = member i is a dropped bar still in the order), all three members drawn; live member acted on: 2
+    // @harness id=C03 tier=thorough timeout=3400 mem=16 checks=rust
+    // @bounds a live member is dropped (forced final draw, then mark_zombie), from any Inv_multi state with zombie pattern 00 (bit i = member i is a dropped bar still in the order); live member acted on: 1
     #[kani::proof]
-    #[kani::unwind(14)]
-    //@STUBS std now widthascii repeat noterm rlctl noweight
+    #[kani::unwind(6)]
+    //@STUBS std now widthascii noterm rlctl noweight dttcontract rows1 noremove lineclone norwlock
     fn c03_drop_member_live() {
-        let c = op_step(4, 0, 7, 2);
+        let c = op_step(4, 0, 1);
         kani::cover!(c & 2 != 0);
         kani::cover!(c & 8 != 0);
     }
 
-    // @harness id=C03 tier=quick timeout=3000 mem=8
-    // @bounds a live member is dropped (forced final draw, then mark_zombie), from any Inv_multi state with zombie pattern 001 (members 0..2, bit i = member i is a dropped bar still in the order), all three members drawn; live member acted on: 2
+    // @harness id=C03 tier=thorough timeout=3400 mem=16 checks=rust
+    // @bounds a live member is dropped (forced final draw, then mark_zombie), from any Inv_multi state with zombie pattern 01 (bit i = member i is a dropped bar still in the order); live member acted on: 1
     #[kani::proof]
-    #[kani::unwind(14)]
-    //@STUBS std now widthascii repeat noterm rlctl noweight
+    #[kani::unwind(6)]
+    //@STUBS std now widthascii noterm rlctl noweight dttcontract rows1 noremove lineclone norwlock
     fn c03_drop_member_headz() {
-        let c = op_step(4, 1, 7, 2);
+        let c = op_step(4, 1, 1);
         kani::cover!(c & 2 != 0);
-        kani::cover!(c & 8 != 0);
+        kani::cover!(c & 4 != 0);
     }
 
-    // @harness id=C03 tier=thorough timeout=3000 mem=8
-    // @bounds a live member is dropped (forced final draw, then mark_zombie), from any Inv_multi state with zombie pattern 010 (members 0..2, bit i = member i is a dropped bar still in the order), all three members drawn; live member acted on: 2
+    // @harness id=C03 tier=thorough timeout=3400 mem=16 checks=rust
+    // @bounds a live member is dropped (forced final draw, then mark_zombie), from any Inv_multi state with zombie pattern 10 (bit i = member i is a dropped bar still in the order); live member acted on: 0
     #[kani::proof]
-    #[kani::unwind(14)]
-    //@STUBS std now widthascii repeat noterm rlctl noweight
-    fn c03_drop_member_midz() {
-        let c = op_step(4, 2, 7, 2);
+    #[kani::unwind(6)]
+    //@STUBS std now widthascii noterm rlctl noweight dttcontract rows1 noremove lineclone norwlock
+    fn c03_drop_member_tailz() {
+        let c = op_step(4, 2, 0);
         kani::cover!(c & 2 != 0);
-        kani::cover!(c & 8 != 0);
+        kani::cover!(c & 4 != 0);
     }
 
-    // @harness id=C03 tier=thorough timeout=3000 mem=8
-    // @bounds a live member is dropped (forced final draw, then mark_zombie), from any Inv_multi state with zombie pattern 011 (members 0..2, bit i = member i is a dropped bar still in the order), all three members drawn; live member acted on: 2
+    // @harness id=C03 tier=thorough timeout=3400 mem=16 checks=rust
+    // @bounds suspend whose closure writes one line to the terminal, from any Inv_multi state with zombie pattern 00 (bit i = member i is a dropped bar still in the order); live member acted on: 1
     #[kani::proof]
-    #[kani::unwind(14)]
-    //@STUBS std now widthascii repeat noterm rlctl noweight
-    fn c03_drop_member_headzz() {
-        let c = op_step(4, 3, 7, 2);
-        kani::cover!(c & 2 != 0);
-        kani::cover!(c & 8 != 0);
-    }
-
-    // @harness id=C03 tier=quick timeout=3000 mem=8
-    // @bounds suspend whose closure writes one line to the terminal, from any Inv_multi state with zombie pattern 000 (members 0..2, bit i = member i is a dropped bar still in the order), all three members drawn; live member acted on: 2
-    #[kani::proof]
-    #[kani::unwind(14)]
-    //@STUBS std now widthascii repeat noterm rlctl noweight
+    #[kani::unwind(6)]
+    //@STUBS std now widthascii noterm rlctl noweight dttcontract rows1 noremove lineclone norwlock
     fn c03_suspend_live() {
-        let c = op_step(5, 0, 7, 2);
+        let c = op_step(5, 0, 1);
         kani::cover!(c & 2 != 0);
         kani::cover!(c & 8 != 0);
     }
 
-    // @harness id=C03 tier=quick timeout=3000 mem=8
-    // @bounds suspend whose closure writes one line to the terminal, from any Inv_multi state with zombie pattern 001 (members 0..2, bit i = member i is a dropped bar still in the order), all three members drawn; live member acted on: 2
+    // @harness id=C03 tier=thorough timeout=3400 mem=16 checks=rust
+    // @bounds suspend whose closure writes one line to the terminal, from any Inv_multi state with zombie pattern 01 (bit i = member i is a dropped bar still in the order); live member acted on: 1
     #[kani::proof]
-    #[kani::unwind(14)]
-    //@STUBS std now widthascii repeat noterm rlctl noweight
+    #[kani::unwind(6)]
+    //@STUBS std now widthascii noterm rlctl noweight dttcontract rows1 noremove lineclone norwlock
     fn c03_suspend_headz() {
-        let c = op_step(5, 1, 7, 2);
+        let c = op_step(5, 1, 1);
         kani::cover!(c & 2 != 0);
-        kani::cover!(c & 8 != 0);
+        kani::cover!(c & 4 != 0);
     }
 
-    // @harness id=C03 tier=thorough timeout=3000 mem=8
-    // @bounds suspend whose closure writes one line to the terminal, from any Inv_multi state with zombie pattern 010 (members 0..2, bit i = member i is a dropped bar still in the order), all three members drawn; live member acted on: 2
+    // @harness id=C03 tier=thorough timeout=3400 mem=16 checks=rust
+    // @bounds suspend whose closure writes one line to the terminal, from any Inv_multi state with zombie pattern 10 (bit i = member i is a dropped bar still in the order); live member acted on: 0
     #[kani::proof]
-    #[kani::unwind(14)]
-    //@STUBS std now widthascii repeat noterm rlctl noweight
-    fn c03_suspend_midz() {
-        let c = op_step(5, 2, 7, 2);
+    #[kani::unwind(6)]
+    //@STUBS std now widthascii noterm rlctl noweight dttcontract rows1 noremove lineclone norwlock
+    fn c03_suspend_tailz() {
+        let c = op_step(5, 2, 0);
         kani::cover!(c & 2 != 0);
-        kani::cover!(c & 8 != 0);
+        kani::cover!(c & 4 != 0);
     }
 
-    // @harness id=C03 tier=thorough timeout=3000 mem=8
-    // @bounds suspend whose closure writes one line to the terminal, from any Inv_multi state with zombie pattern 011 (members 0..2, bit i = member i is a dropped bar still in the order), all three members drawn; live member acted on: 2
+    // @harness id=C03 tier=thorough timeout=3400 mem=16 checks=rust
+    // @bounds suspend whose closure writes one line to the terminal, from any Inv_multi state with zombie pattern 11 (bit i = member i is a dropped bar still in the order)
     #[kani::proof]
-    #[kani::unwind(14)]
-    //@STUBS std now widthascii repeat noterm rlctl noweight
-    fn c03_suspend_headzz() {
-        let c = op_step(5, 3, 7, 2);
+    #[kani::unwind(6)]
+    //@STUBS std now widthascii noterm rlctl noweight dttcontract rows1 noremove lineclone norwlock
+    fn c03_suspend_allz() {
+        let c = op_step(5, 3, 0);
         kani::cover!(c & 2 != 0);
-        kani::cover!(c & 8 != 0);
+        kani::cover!(c & 4 != 0);
     }
 
 }
